@@ -64,7 +64,8 @@ def _esc_lit(s):
 def _brk_str(n):
     s = "[" + ("^" if n.a else "")
     # ("[" members are printed last: "[" followed by ":" or "=" would open a class name)
-    for it in [x for x in n.b if x != ("c", "[")] + [x for x in n.b if x == ("c", "[")]:
+    # ("]" members are printed first, where a closing bracket is an ordinary member)
+    for it in [x for x in n.b if x == ("c", "]")] + [x for x in n.b if x not in (("c", "["), ("c", "]"))] + [x for x in n.b if x == ("c", "[")]:
         if it[0] == "c":
             s += it[1]
         elif it[0] == "r":
